@@ -822,23 +822,51 @@ Section Store.
   (* ---- ResponseWriter.WriteMsg: what a downstream response leaves in the store.
      client = the request's scope (requestScope, already masked); the downstream echoes the
      client's ECS address with SCOPE = scope_bits (0 = global) *)
-  Definition writeback_scope (client : option scope) (scope_bits : N) : option scope :=
+  Definition writeback_scope (min4 min6 : N) (client : option scope) (scope_bits : N) : option scope :=
     match client with
     | Some c =>
         (* ReadResponseScope: SCOPE 0 is "global"; a SCOPE longer than the family's address makes
            addr.Prefix fail and the answer is treated as global too *)
         if (scope_bits =? 0) || ((if sc_is4 c then 32 else 128) <? scope_bits) then None
-        else Some (addr_prefix (sc_is4 c) (sc_addr c) (N.min scope_bits (sc_bits c)))   (* ClampScope *)
+        else
+          (* ClampScope: never narrower than the source, never narrower than the policy's min_scope *)
+          let b := N.min scope_bits (sc_bits c) in
+          let floor := if sc_is4 c then min4 else min6 in
+          Some (addr_prefix (sc_is4 c) (sc_addr c) (if floor <? b then floor else b))
     | None => None
     end.
-  Definition writeback_answer (q : question) (cd : bool) (client : option scope) (scope_bits : N) (id : N) (s : store) : store :=
-    let sc := writeback_scope client scope_bits in
+  Definition writeback_answer (min4 min6 : N) (q : question) (cd : bool) (client : option scope) (scope_bits : N) (id : N) (s : store) : store :=
+    let sc := writeback_scope min4 min6 client scope_bits in
     reset_matching q cd client
       (store_set_from_response (H (cachekey_pre q cd sc)) q cd sc id None s).
   (* every SERVFAIL exit (downstream SERVFAIL, alias chase ending in SERVFAIL): the failure is
      recorded for the REQUEST's audience *)
   Definition writeback_failure (q : question) (cd : bool) (client : option scope) (id : N) (s : store) : store :=
     record_fquestion q cd client id s.
+
+  (* Cache.additionalAnswer over a Queryer that answers from the store (Store.Get): after an alias
+     hit, the target is looked up with the client's type and CD — and with class IN whatever the
+     client's class was: the sub-query is built by dns.Msg.SetQuestion(target, qtype), which sets
+     Qclass = ClassINET (finding msg-chase-subquery-class-in).  The loop goes on while the hop is
+     itself an alias without the terminal record (at most [fuel] sub-queries) *)
+  Definition class_inet : N := 1.
+  Fixpoint msg_chase (s : store) (fuel : nat) (qtype : N) (cd : bool) (e : entry) : list entry :=
+    match fuel with
+    | O => []
+    | S f =>
+        match e_alias e with
+        | None => []
+        | Some tw =>
+            match option_map present (parse_wire tw) with
+            | None => []
+            | Some tn =>
+                match store_lookup s (mk_q tn qtype class_inet) cd with
+                | Some nxt => nxt :: msg_chase s f qtype cd nxt
+                | None => []
+                end
+            end
+        end
+    end.
 
   (* ---- what a client of the edns+cache pipeline observes *)
   Inductive outcome := OMiss | OHit (id : N) | OCut (id : N) | OFail (id : N).
